@@ -17,9 +17,9 @@ import (
 	"unsafe"
 
 	"github.com/whoisnian/glb/httpd"
-	"github.com/whoisnian/glb/zzverif/vsched"
-	"github.com/whoisnian/glb/zzverif/vsync"
 	"verif/engine/sdrive"
+	"verif/engine/shim/vsched"
+	"verif/engine/shim/vsync"
 	"verif/engine/vcommon"
 	"verif/engine/vstate"
 )
